@@ -12,6 +12,7 @@ import Librfn.Driver.PT
 import Librfn.Driver.HB
 import Librfn.Driver.Sched
 import Librfn.Driver.Console
+import Librfn.Driver.Isr
 
 def main (args : List String) : IO UInt32 :=
   match args with
@@ -29,4 +30,5 @@ def main (args : List String) : IO UInt32 :=
   | "hb" :: rest => Librfn.Driver.HB.main rest
   | "sched" :: rest => Librfn.Driver.Sched.main rest
   | "console" :: rest => Librfn.Driver.Console.main rest
+  | "isr" :: rest => Librfn.Driver.Isr.main rest
   | _ => do IO.eprintln "usage: librfn_model <engine> [args]"; return 2
